@@ -31,7 +31,10 @@ package filter_test
 //   (thorough) components over {a, b, *, **} x {relative, absolute} x {plain,
 //   negated}, thorough additionally lists of 3 patterns of 1..2 components
 //   over {a, *, **}; against every path of 1..4 components over {a, b},
-//   absolute and relative, through List and ListWithChild.
+//   absolute and relative, through List and ListWithChild, and through the
+//   wrappers RejectByPattern / IncludeByPattern and their case-insensitive
+//   variants (upper-cased patterns resp. paths; "--iexclude: same as --exclude
+//   but ignores the case of paths").
 // Part C (invalid patterns): the malformed components "[" and "a[" in every
 //   position of patterns of 1..3 components (other components from {a, **}),
 //   relative/absolute, plain/negated: no panic (error or not is undecided:
@@ -400,14 +403,33 @@ func verifC28PartB(r *vh.Run) {
 		name := strings.Join(strs, " ; ")
 		parsed := filter.ParsePatterns(strs)
 		child := make([]bool, len(paths))
+		// the exclude / include wrappers used by the commands, and their case-insensitive variants
+		upper := make([]string, len(strs))
+		for i, s := range strs {
+			upper[i] = strings.ToUpper(s)
+		}
+		warned := ""
+		warnf := func(msg string, args ...any) { warned = fmt.Sprintf(msg, args...) }
+		rej, inc := filter.RejectByPattern(strs, warnf), filter.IncludeByPattern(strs, warnf)
+		irej, iinc := filter.RejectByInsensitivePattern(upper, warnf), filter.IncludeByInsensitivePattern(upper, warnf)
 		for i, pa := range paths {
 			var got, gotLC, c bool
 			var err, errLC error
+			var wRej, wInc, wIncC, wIRej, wIInc bool
 			panicked, msg := vh.NoPanic(func() {
 				got, err = filter.List(parsed, pa.str)
 				gotLC, c, errLC = filter.ListWithChild(parsed, pa.str)
+				wRej = rej(pa.str)
+				wInc, wIncC = inc(pa.str)
+				wIRej = irej(strings.ToUpper(pa.str))
+				wIInc, _ = iinc(pa.str)
 			})
-			r.Eval(2)
+			r.Eval(6)
+			if !panicked && (wRej != got || wInc != got || wIncC != c || wIRej != got || wIInc != got || warned != "") {
+				r.Violationf(ck, fmt.Sprintf("C28|wrapper|list=%s|path=%s", name, pa.str), []any{strs, pa.str},
+					"List([%s], %q) = %v child=%v, but RejectByPattern=%v IncludeByPattern=%v/%v RejectByInsensitivePattern(upper case)=%v IncludeByInsensitivePattern=%v warning=%q",
+					name, pa.str, got, c, wRej, wInc, wIncC, wIRej, wIInc, warned)
+			}
 			if panicked || err != nil || errLC != nil {
 				r.Violationf(ck, fmt.Sprintf("C28|list-error|list=%s|path=%s", name, pa.str), []any{strs, pa.str}, "list [%s] on path %q failed: %v %v %s", name, pa.str, err, errLC, msg)
 				return
